@@ -109,6 +109,7 @@ pub struct HStats {
     pub seeks_in_buffer: usize,
     pub seeks_real: usize,
     pub largest_set: usize,
+    pub interrupts_seen: usize,
     pub positions_checked_after_error: usize,
     /// seek targets inside / outside the last `capacity` bytes the source has delivered (a fact about
     /// the workload, independent of whether the reader uses an in-buffer shortcut)
@@ -1044,13 +1045,20 @@ impl<'a> Runner<'a> {
 }
 
 pub fn run_history(case: &HCase, opts: RunOpts) -> HOutcome {
+    run_history_reusing(case, opts, None).0
+}
+
+/// `reuse`: record sets that another reader (over another input) has filled before; the model knows
+/// nothing about their contents until this reader fills them. Returns the sets for the next reuse.
+pub fn run_history_reusing(case: &HCase, opts: RunOpts, reuse: Option<Vec<AnySet>>) -> (HOutcome, Vec<AnySet>) {
     let rig = make_rig(case.fmt, case.input.clone(), &case.cfg, case.faults.clone());
     let has_exact = case.ops.iter().any(|o| matches!(o, Op::ReadSetExact(..)));
+    let reused = reuse.is_some();
     let mut run = Runner {
         case,
         rig,
-        sets: (0..N_SLOTS).map(|_| AnySet::new(case.fmt)).collect(),
-        slots: vec![Slot::Fresh; N_SLOTS],
+        sets: reuse.unwrap_or_else(|| (0..N_SLOTS).map(|_| AnySet::new(case.fmt)).collect()),
+        slots: vec![if reused { Slot::Unknown } else { Slot::Fresh }; N_SLOTS],
         cursor: Cursor::At(0),
         degraded: false,
         last_delivered: None,
@@ -1145,13 +1153,17 @@ pub fn run_history(case: &HCase, opts: RunOpts) -> HOutcome {
         let s = run.rig.src.borrow();
         run.stats.read_calls = s.read_calls;
         run.stats.seek_calls = s.seek_calls;
+        run.stats.interrupts_seen = s.interrupts;
         run.stats.injected_seen = s.injected.len();
     }
-    HOutcome {
-        deviations: run.devs,
-        stats: run.stats,
-        trace: run.trace,
-    }
+    (
+        HOutcome {
+            deviations: run.devs,
+            stats: run.stats,
+            trace: run.trace,
+        },
+        run.sets,
+    )
 }
 
 /// number of source calls of the fault-free run (for fault enumeration)
